@@ -463,3 +463,16 @@ pub fn stalemate_trick_position(rng: &mut Rng) -> Option<Pos> {
     }
     None
 }
+
+/// A position from a seeded game in which an en-passant capture is legal right now.
+pub fn ep_capture_position(rng: &mut Rng) -> Option<Pos> {
+    for _ in 0..30 {
+        let plies = 6 + rng.usize_below(60);
+        let (_, ps) = playout(rng, &Pos::startpos(), plies, 2);
+        let c: Vec<&Pos> = ps.iter().filter(|p| p.legal_moves().iter().any(|m| m.flags & F_EP != 0)).collect();
+        if !c.is_empty() {
+            return Some((*rng.pick(&c)).clone());
+        }
+    }
+    None
+}
